@@ -130,6 +130,8 @@ func (v VD) Go() any {
 		return m
 	case "mapk":
 		return buildIntMap(v)
+	case "row":
+		return rowKindNamed(v.S).build(v.M)
 	case "mapis":
 		m := make(map[int]string, len(v.M))
 		for k, e := range v.M {
